@@ -297,7 +297,7 @@ var plans = map[string]*propertyPlan{
 		Explain: "Reply loops of QuorumCall and handleAsyncCall verified against a ghost history of received answers (seen/failed/okmsg, counters): every quorum-function call site is checked for its arguments, the reply set and the once-per-successful-reply / never-after-quorum discipline; success returns exactly the function's last value."},
 	"C02": {ID: "C02", Level: "proof", Pkgs: rootPkg, Extra: modeScan("C02"),
 		Explain: "Every return of the reply loops is classified (quorum / Incomplete / context) by postconditions over the ghost history; the progress obligation at each blocking select (an answer is still owed) covers the zero-target case; the future is written exactly once before its single close; QuorumCallError.Is is specified completely."},
-	"C03": {ID: "C03", Level: "other", Pkgs: rootPkg,
+	"C03": {ID: "C03", Level: "other", Pkgs: rootPkg, Extra: modeScan("C03"),
 		Explain: "Program-order part of per-node FIFO: every call function hands its requests to enqueue itself (never from a goroutine) and before it starts its handler goroutine or returns; enqueue registers before it queues and queues exactly the request it was given; newChannel starts exactly one sender and newNodeStream at most one receiver; the sender passes each dequeued request to sendMsg at most once, sendMsg calls SendMsg at most once and synchronously; the server loop starts at most one handler per received message and receives the next message only after the hand-over mutex came back. That Go channels and one gRPC stream are FIFO, and that these facts compose under every schedule, is trusted."},
 	"C04": {ID: "C04", Level: "proof", Pkgs: rootPkg, Gen: true, GenServers: true,
 		Extra: func(s *Session, tier string) []*FuncResult {
@@ -344,7 +344,7 @@ var plans = map[string]*propertyPlan{
 			return out
 		}),
 		Explain: "Correctable is verified as a monitor (invariant over level, done, the watcher slots and the closed-ness of their channels, re-established at every unlock); set's two loops carry quantified invariants (no double close, every watcher at or below the level released); the handler loop is proved to publish exactly the quorum function's level and value whenever the level rises, before it blocks again, to complete exactly once under the three stated conditions and never to lower a level. The typed Get accessors of the regenerated stubs are verified panic-free for every state of the raw object (no reply yet, error, reply)."},
-	"C12": {ID: "C12", Level: "other", Pkgs: rootPkg,
+	"C12": {ID: "C12", Level: "other", Pkgs: rootPkg, Extra: modeScan("C12"),
 		Explain: "Close visits every pooled node (closeNodeConns over a snapshot), cancels before closing the connection and cannot panic for any option; sender, receiver and reconnect block only on points guarded by the channel's parent context (or external stream calls on contexts derived from it); enqueue after Close answers the request instead of queuing when only the closed branch is enabled, and never panics; one-way calls are released by their own context."},
 	"C13": {ID: "C13", Level: "proof", Pkgs: rootPkg,
 		Explain: "The decoder is proved panic-free for an unconstrained byte slice (every type assertion, slice expression, nil dereference and interface call on its paths), relative to trusted protobuf contracts; it is proved to create the message of the method's input type for requests and output type for responses, to look the method up exactly once under the decoded name, and to reject unknown message kinds; abstract-bytes round trip."},
